@@ -192,8 +192,21 @@ def concretise(plan, rundir, variant, idx):
     return dplan, c, inj
 
 
+import threading
+HANGS = {"n": 0, "skipped": 0}
+HANG_LOCK = threading.Lock()
+HANG_CONFIRM = 6     # so many hangs are confirmed with the long watchdog,
+HANG_ABORT = 30      # after so many the remaining runs of the check are skipped (a tree that hangs everywhere)
+
+
 def execute(job):
-    """job: dict(idx, plan, variant, rundir, bindir, tools). Returns dict(events, raw)."""
+    """job: dict(idx, plan, variant, rundir, bindir, tools). Returns dict(events, raw) or None (skipped)."""
+    with HANG_LOCK:
+        if HANGS["n"] >= HANG_ABORT:
+            HANGS["skipped"] += 1
+            return None
+        if HANGS["n"] >= HANG_CONFIRM and "timeout_ms" not in job:
+            job = dict(job, timeout_ms=1500, noconfirm=True)
     rundir = job["rundir"]
     if os.path.isdir(rundir):
         shutil.rmtree(rundir)
@@ -239,9 +252,12 @@ def execute(job):
         dump = json.loads(open(dpath).read())
     info = info_from_tracer(job["idx"], c, tr) if probe else info_from_driver(job["idx"], c, dv)
     events = assemble(job["idx"], c, tr, info, dump)
-    if any(e["ev"] == "anomaly" and e["what"] == "TimedOut" for e in events) and job.get("timeout_ms", 4000) < 20000:
-        # a hang of the code under test is deterministic; a slow machine is not: confirm with a long watchdog
-        return execute(dict(job, timeout_ms=20000))
+    if any(e["ev"] == "anomaly" and e["what"] == "TimedOut" for e in events):
+        if job.get("timeout_ms", 4000) < 20000 and not job.get("noconfirm"):
+            # a hang of the code under test is deterministic; a slow machine is not: confirm with a long watchdog
+            return execute(dict(job, timeout_ms=20000))
+        with HANG_LOCK:
+            HANGS["n"] += 1
     return {"idx": job["idx"], "events": events, "c": c, "dplan": dplan, "inj": inj, "tracer": tr, "driver": dv, "dump": dump}
 
 
@@ -494,6 +510,8 @@ def run(tier):
         t1 = time.time()
         with concurrent.futures.ThreadPoolExecutor(max_workers=4) as ex2:
             runs = list(ex2.map(execute, jobs))
+        done = [(r, j) for r, j in zip(runs, jobs) if r is not None]
+        runs, jobs = [r for r, _ in done], [j for _, j in done]
         t2 = time.time()
         verdicts, jres = judge(chk, runs, variant)
         core.log("%s: %d real runs %.1fs, SpawnTrace judge %.1fs" % (variant, len(runs), t2 - t1, time.time() - t2))
@@ -544,6 +562,8 @@ def run(tier):
                 "(SpawnTrace.tla); non-trivial = runs in which at least one step failed (injected or configured: missing "
                 "cwd / program, failing pre-exec closure)")
     chk.exhaustive = False
+    if HANGS["n"]:
+        chk.extra["hangs"] = dict(HANGS)
     chk.extra["model_conformance"] = not drift
     chk.extra["model_drift"] = drift[:10]
     chk.extra["model_drift_runs"] = len(drift)
